@@ -155,6 +155,6 @@ def execute(cases_, tier, seed):
     res.samples = [{"id": wc.id, "doc": wc.placed["doc"]} for wc in wcs[:: max(1, len(wcs) // 4)]][:4]
     res.bound = "as C02 (tier=%s); instances: oracle-valid, declared members only" % tier
     res.assumptions = ["as C02", "intrinsic defaults: null, [], {}, false, 0, \"\""]
-    if len(cases_) > 20 and n_rt < 100:
+    if not res.violations and (len(cases_) > 20 and n_rt < 100):   # a subject that breaks everything is reported through its violations, not as vacuity
         raise MachineryError("vacuity guard: only %d round trips" % n_rt)
     return res
